@@ -33,10 +33,10 @@ func (r *Rng) Intn(n int) int {
 	}
 	return int(r.U64() % uint64(n))
 }
-func (r *Rng) Range(lo, hi int) int { return lo + r.Intn(hi-lo+1) } // inclusive
-func (r *Rng) Bool() bool           { return r.U64()&1 == 1 }
+func (r *Rng) Range(lo, hi int) int     { return lo + r.Intn(hi-lo+1) } // inclusive
+func (r *Rng) Bool() bool               { return r.U64()&1 == 1 }
 func (r *Rng) Chance(num, den int) bool { return r.Intn(den) < num }
-func (r *Rng) Pick(xs ...int) int   { return xs[r.Intn(len(xs))] }
+func (r *Rng) Pick(xs ...int) int       { return xs[r.Intn(len(xs))] }
 
 // mixSeed derives the PRNG state of case i; the multiplier differs from splitmix64's increment so that
 // neighbouring cases do not get shifted copies of one stream.
